@@ -265,6 +265,18 @@ class Gen(object):
                             {'x-auth-token': 'bob:proj-0', 'x-roles': None},
                             {'x-auth-token': None}])
                         op['defect'] = 'caller'
+                elif self.accept_variants and op['m'] == 'GET' and \
+                        self.chance(0.05):
+                    # a client revalidating a cached copy, or asking for a
+                    # part: the service knows no conditional or partial
+                    # answers - what it sends is the current, whole document
+                    op['h'] = self.pick([
+                        {'if-modified-since': 'Tue, 01 Jan 2030 00:00:00 GMT'},
+                        {'if-modified-since': 'Thu, 01 Jan 2026 00:00:00 GMT'},
+                        {'if-none-match': '*'},
+                        {'if-unmodified-since':
+                         'Sat, 01 Jan 2022 00:00:00 GMT'},
+                        {'range': 'bytes=0-9'}])
                 elif self.accept_variants and self.chance(0.04):
                     # what the client says it accepts: read routes answer
                     # 406 when JSON is not acceptable, writes do not look
